@@ -16,6 +16,7 @@ from ..refprice import RefPrices
 from ..calendar_ref import is_bday
 
 NAME = "data"
+ISOLATE = "fork"
 PROPS = ("C06",)
 CHUNK = {"quick": 12, "thorough": 12}
 RULE = ("(data faults of the asset, position of the query instant relative to the asset's bars: before first / "
